@@ -175,7 +175,7 @@ theorem end_to_end_bundle (st : Srv.St) (rnd : Srv.Rnd) (c : Ref.Ctx) (t : Ref.T
     ∃ out R, Srv.serve st rnd fr = ({ st with dev := (runSingly st.dev ss).1 }, .reply out)
       ∧ Ref.decReplyMsg out = some (c.hdr 0x6F, .cip none 0 timeout (.tag R))
       ∧ Ref.decBundle R = some (runSingly st.dev ss).2 := by
-  obtain ⟨_, ms, hms, _⟩ := runSingly_producible st.dev hwf ss hs
+  obtain ⟨_, ms, hms, _⟩ := runSingly_producible st.dev hwf ss
   have hlen := hsize ms hms
   have hcm : notCM st.dev (.multiple p ss) = true := by
     simp [notCM, reqPath, hp, Srv.cm, router, Generated.iopCmClass, Generated.routerClass]
@@ -327,8 +327,8 @@ theorem open_close_restores (fwds : List Srv.Fwd) (fo : Ref.FwdOpen) (otId id : 
 /-- **A multi-read returns, tag by tag, what the single reads return** (the bundle is a Multiple Service
 Packet; by C07 its members execute one by one, and reads change nothing) -/
 theorem client_multiRead (d : Dev) (ps : List Path) :
-    Client.run d (.multiRead ps) = (d, ps.map fun p => Client.resOf (execSimple d (.readTag p 1)).2) := by
-  simp only [Client.run, execMembers_eq_runSingly, runSingly_reads, List.map_map]
+    IopClient.run d (.multiRead ps) = (d, ps.map fun p => IopClient.resOf (execSimple d (.readTag p 1)).2) := by
+  simp only [IopClient.run, execMembers_eq_runSingly, runSingly_reads, List.map_map]
   rfl
 
 /-! ## the defect that was repaired: unresolvable *unconnected* request paths -/
@@ -371,11 +371,11 @@ element as 80 bytes.  (`end_to_end_read` holds per request; the defect is in wha
 theorem client_string_array_read_fails :
     (execSimple strDev (.readTag [.symbolic "zz", .elem 0] 10)).2.status = 6
     ∧ ((execSimple strDev (.readTag [.symbolic "zz", .elem 0] 10)).2.vals).length = 7
-    ∧ (Client.read strDev [.symbolic "zz", .elem 0] 10).status = 255 := by decide +kernel
+    ∧ (IopClient.read strDev [.symbolic "zz", .elem 0] 10).status = 255 := by decide +kernel
 
 /-- … while for fixed-size element types the generic client's read does complete (here: the 3 SINTs of `a`
 in fragments of one element, `MAX_BYTES = 1`) -/
-example : Client.read { demoDev with maxBytes := 1 } [.symbolic "a"] 3
+example : IopClient.read { demoDev with maxBytes := 1 } [.symbolic "a"] 3
     = { status := 0, ty := some .sint, vals := [.int 1, .int 2, .int 3] } := by decide +kernel
 
 /-! ## non-vacuity: the hypotheses hold on a device with contents, and the pipeline computes -/
